@@ -150,11 +150,21 @@ pub fn init() {
 
 pub fn rook_attacks(s: Square, blockers: Bitboard) -> Bitboard {
     let table_idx = table_index_rook(s, blockers);
+    #[cfg(jgilchrist_tcheran_verif)]
+    assert!(
+        table_idx < unsafe { ATTACKS_TABLE.len() },
+        "verif H4: rook attack table index {table_idx} out of range"
+    );
     *unsafe { ATTACKS_TABLE.get_unchecked(table_idx) }
 }
 
 pub fn bishop_attacks(s: Square, blockers: Bitboard) -> Bitboard {
     let table_idx = table_index_bishop(s, blockers);
+    #[cfg(jgilchrist_tcheran_verif)]
+    assert!(
+        table_idx < unsafe { ATTACKS_TABLE.len() },
+        "verif H4: bishop attack table index {table_idx} out of range"
+    );
     *unsafe { ATTACKS_TABLE.get_unchecked(table_idx) }
 }
 
